@@ -1,6 +1,6 @@
 \* late wake-ups and slow predicates, odd stable periods: sequences up to length 7
 CONSTANTS
-  NSet = {1, 2, 3}
+  NSet = {0, 1, 2, 3}
   MSSet = {0, 1, 3, 4, 5}
   CDSet = {0, 3, 7}
   IVSet = {1, 2, 3}
